@@ -54,6 +54,10 @@ def enumerate_cases(tier):
         for sub in itertools.combinations(range(len(both)), k):
             if sub[-1] >= n:  # at least one of the alpha-only variants
                 yield {"t": "set", "colors": [both[i] for i in sub], "perm": "rev-dup"}
+    # alpha bytes that are not multiples of 0.01, written as #RRGGBBAA at opacity 1: COLRv0 keeps them in the palette entry
+    for fl in ("glyf", "cff"):
+        yield {"t": "font", "version": 0, "flavour": fl, "conflict": None, "exact_alpha": True,
+               "glyphs": [{"colors": [["#ffff0020", 1.0], ["#00ffffc8", 1.0], ["#1020307f", 1.0]], "kind": "solid"}, {"colors": [["#a0b0c0fe", 1.0], ["#33445503", 1.0], ["#0a141e81", 1.0]], "kind": "solid"}]}
     # every CSS colour keyword once as a fill and once as a gradient stop, against PIL's table (A41)
     names = list(CSS_NAMES)
     for ver, kind in ((1, "solid"), (0, "solid"), (1, "stops")):
@@ -332,7 +336,10 @@ def judge_font(case, v):
             for pa, pb in pairs:
                 if ver == 0 and pb.rgb == FG and pa.rgb == FG:
                     continue  # COLRv0 has no alpha for the foreground colour (format limitation, C03)
-                if pa.rgb != pb.rgb or abs(pa.alpha - pb.alpha) > 2.5 / 255:
+                # a plain #RRGGBBAA fill at opacity 1 names its alpha byte: it has to arrive unchanged ("exact_alpha" rows);
+                # elsewhere products of opacities are rounded on the way and 2.5 steps are allowed
+                tol_a = 0.3 / 255 if case.get("exact_alpha") else 2.5 / 255
+                if pa.rgb != pb.rgb or abs(pa.alpha - pb.alpha) > tol_a:
                     v.fail("colour-resolves-wrong", "COLR colour != source colour", {"glyph": i, "layer": k, "got": repr(pa), "want": repr(pb), "src": s["svg"][:300]})
     # raw facts: currentColor -> 0xFFFF; var(--colorN) -> entry N
     for i, g in enumerate(case["glyphs"]):
